@@ -642,6 +642,8 @@ mutant("M109-blockview-nominal-chunks", ["C12"], "META-1", ("cubed/core/indexing
 ALL_PROPS = [f"C{i:02d}" for i in range(1, 21) if i != 14]
 CORPUS.append({"id": "B-unparse-roundtrip-every-module", "kind": "benign", "props": ALL_PROPS, "rule": None, "edits": [], "transform": "unparse-all"})
 CORPUS.append({"id": "B-shift-all-line-numbers", "kind": "benign", "props": ALL_PROPS, "rule": None, "edits": [], "transform": "shift-lines"})
+CORPUS.append({"id": "B-rename-every-local-suffix", "kind": "benign", "props": ALL_PROPS, "rule": None, "edits": [], "transform": "rename-locals"})
+CORPUS.append({"id": "B-rename-every-local-opaque", "kind": "benign", "props": ALL_PROPS, "rule": None, "edits": [], "transform": "rename-opaque"})
 
 
 # --------------------------------------------------------------- repaired twins of the known findings
